@@ -181,6 +181,11 @@ def run(tier):
                 continue
             if field in ("c", "nw"):
                 raise vlib.ToolError("catalogue drift: %s = %s, model says %s" % (field, got, want))
+            if field == "differing":
+                # two proofs under different randomness sharing a field is a masking
+                # matter (C06), not an acceptance: recorded, not alarmed here
+                drift["splice: %s of %s spliced fields differ" % (got, want)] += 1
+                continue
             cls = {"accept": "%s_accepted" % adv[0], "reject": "honest_rejected",
                    "panic": "panic", "value": "value:" + field}[sev]
             ck.violation(
